@@ -117,3 +117,7 @@ m("c14-uninitialised-scale", "C14", 1, [("src/gm2_slha_io.cpp",
    "double GM2_slha_io::read_scale(const SLHAea::Block& block)\n{\n   double scale = 0.0;",
    "double GM2_slha_io::read_scale(const SLHAea::Block& block)\n{\n   double scale;")],
   "block scale left uninitialised when the block definition has no Q= entry")
+
+m("c17-uninitialised-svd-result", "C17", 1, [("src/gm2_linalg.hpp",
+   "    if (!m.allFinite()) {\n", "    if (false) {\n")],
+  "reverts fix 3428776 (seen from the C API): values computed from uninitialised JacobiSVD results cross the interface after non-finite setter values")
